@@ -94,6 +94,13 @@ def run(R):
                      extra_seqs=[('u2_create', 'u3_create', 'u3_jobs', 'u2_jobs', 'u2_commit'),
                                  ('u2_create', 'u2_jobs', 'u3_create', 'u3_jobs', 'u2_commit', 'schedule'),
                                  ('u2_create', 'u3_create', 'u2_jobs', 'u3_jobs', 'u3_commit', 'u2_commit')], workers=w)
+    # (1c) update 1 reserves job groups only (no jobs), so the jobs of update 2 start at id 1; update 2 late or never
+    sizes0 = model.Sizes(J=2, G=2, U=3, I=1, A=2, T=2, IC=1)
+    run_bmc_property(R, 'C41', sizes0, n1=0, g1=1, alphabet=[], depth=0, asserts=asserts, classify=classify,
+                     extra_seqs=[('u2_create', 'u2_jobs', 'schedule'),
+                                 ('u2_create', 'u2_jobs', 'u3_create', 'u3_jobs', 'u3_commit', 'schedule'),
+                                 ('u2_create', 'u2_jobs', 'u3_create', 'u3_jobs', 'u3_commit', 'schedule', 'complete'),
+                                 ('u2_create', 'u2_jobs', 'cancel_group', 'u2_commit')], workers=w)
     # (2) update 1 itself never committed: driver operations and a second client's update
     run_bmc_property(R, 'C41', sizes, n1=sizes.J - 1 if quick else 2, g1=1, alphabet=['cancel_group', 'u2_create', 'u2_jobs', 'u2_commit', 'schedule'],
                      depth=2, asserts=asserts, classify=classify, commit=False,
